@@ -332,7 +332,70 @@ def work_tandy(shard):
     return part
 
 
+# play state carried from one PLAY statement to the next, also past statements that break off
+
+PERSIST_UNITS = [b'O2', b'T200', b'L8', b'MS', b'>C', b'<<<', b'ML',
+                 b'O7', b'O-1', b'T20', b'T300', b'L0', b'L65', b'CO9D', b'N85', b'E8T9', b'O=L%;']
+PERSIST_PROBES = [b'C', b'<F>G', b'N30', b'E.P8B-']
+
+
+def work_persist(shard):
+    part = Partial()
+    s = new_session()
+    q = s._impl.queues.audio
+    for seq in shard:
+        texts = [PERSIST_UNITS[i] for i in seq[:-1]] + [PERSIST_PROBES[seq[-1]]]
+        case = {'leg': 'persist', 'seq': list(seq)}
+        r = H.run(s, b'CLEAR:L%%=%d:PLAY "MB"' % VARS['L%'])
+        q.drain()
+        st = mml.State()
+        mml.run(b'MB', VARS, st)
+        part.n += 1
+        part.traces += 1
+        for k, text in enumerate(texts):
+            try:
+                r = H.run(s, b'PLAY "%s"' % text)
+            except H.Horizon:
+                part.violation('persist/blocks', 'PLAY %r did not return (after %r)' % (text, texts[:k]), case)
+                break
+            items = q.drain()
+            if r.exc is not None:
+                part.violation('persist/host-exception/%s' % H.exc_key(r.exc), '%r after %r: %r' % (text, texts[:k], r.exc), case)
+                s = new_session()
+                q = s._impl.queues.audio
+                break
+            status, events, unspec = mml.run(text, VARS, st)
+            got = 'ok' if r.err is None else ('ifc' if r.err == 5 else 'err%d' % r.err)
+            failed_before = any(mml.run(t, VARS)[0] == 'ifc' for t in texts[:k])
+            where = 'after-failed-statement' if failed_before else 'plain'
+            if got != status:
+                part.violation('persist/status/%s' % where, 'PLAY %r after %r: got %s, reference %s' % (text, texts[:k], got, status), case)
+                break
+            real, other = real_timelines(items)
+            rt = real.get(0, [])
+            if not any(same_timeline(rt, mml.timeline(events, reading, shift)) for reading in (1, 2) for shift in (0, -1)):
+                part.violation('persist/wrong-tones/%s' % where,
+                               'PLAY %r after %r: emitted %s, reference %s' % (
+                                   text, [t.decode() for t in texts[:k]], describe(rt), describe(mml.timeline(events, 1))), case)
+                break
+        part.classes.add('persist/%s' % ''.join('F' if mml.run(t, VARS)[0] == 'ifc' else 'v' for t in texts))
+    part.sample({'leg': 'persist', 'seq': list(shard[0])})
+    return part
+
+
 def legs(ctx):
+    out = _legs(ctx)
+    nu, npr = len(PERSIST_UNITS), len(PERSIST_PROBES)
+    depth = 2 if ctx.quick else 3
+    seqs = [u + (p_,) for d in range(1, depth + 1) for u in itertools.product(range(nu), repeat=d) for p_ in range(npr)]
+    out.append(Leg('persist', list(chunked(seqs, 200)), work_persist, exhaustive=True,
+                   bound='all sequences of 1..%d PLAY statements over %d units (7 that set octave / tempo / length / articulation, 10 that break '
+                         'off with Illegal function call after 0-1 notes) followed by each of %d probe strings, play state carried over' % (
+                             depth, nu, npr)))
+    return out
+
+
+def _legs(ctx):
     nt = len(TOKENS)
     depth = 2 if ctx.quick else 3
     seqs = [()]
@@ -368,4 +431,6 @@ def replay(ctx, leg, case):
         return work_table([(case['kind'], case['ref'])])
     if leg == 'tandy':
         return work_tandy([tuple(case['idx'])])
+    if leg == 'persist':
+        return work_persist([tuple(case['seq'])])
     raise CheckError('unknown leg %r' % leg)
